@@ -485,6 +485,59 @@ func genC04(c *Ctx) {
 			}))
 		}
 	}
+	// curve points with special coordinates in the list (aggregation sums curve points; it makes no subgroup check, by
+	// design): abscissa zero (the two points of order 3), the smallest and the largest abscissas on the curve, points of
+	// small order and points outside G1 - alone, with their negative, repeated, and next to honest signatures
+	{
+		var special [][]byte
+		addPt := func(enc []byte) {
+			if len(enc) == 48 {
+				special = append(special, enc, askBytes("e1 neg "+hx(enc)))
+			}
+		}
+		zero := make([]byte, 48)
+		zero[0] = 0x80
+		addPt(zero)
+		for _, x := range []*big.Int{big.NewInt(1), big.NewInt(2), big.NewInt(9), new(big.Int).Sub(blsP, big.NewInt(40)), new(big.Int).Rsh(blsP, 1), new(big.Int).Lsh(big.NewInt(1), 380)} {
+			if a := ask("e1 lift 0x" + x.Text(16)); strings.HasPrefix(a, "ok ") {
+				addPt(unhexOr(a[3:]))
+			}
+		}
+		for _, i := range []int{0, 1, 2, 100, 101} {
+			addPt(askBytes(fmt.Sprintf("e1 torsion %d", i)))
+		}
+		addPt(askBytes("e1 off 0"))
+		honest := []crypto.Signature{}
+		for j := 0; j < 2; j++ {
+			sg, _ := skFromInt(c.randScalar()).Sign(c.bytes(9), crypto.NewExpandMsgXOFKMAC128("special"))
+			honest = append(honest, sg)
+		}
+		aggCase := func(class string, list []crypto.Signature) {
+			var bh []string
+			for _, s := range list {
+				bh = append(bh, hx(s))
+			}
+			c.Case(class, "agg.sig "+strings.Join(bh, " "), guard(func() string {
+				s, err := crypto.AggregateBLSSignatures(list)
+				if err != nil {
+					return "err " + errClass(err)
+				}
+				return "ok " + hx(hold("AggregateBLSSignatures", s))
+			}))
+		}
+		for k := 0; k+1 < len(special); k += 2 {
+			P, N := crypto.Signature(special[k]), crypto.Signature(special[k+1])
+			aggCase("agg-sig-special-point/alone", []crypto.Signature{P})
+			aggCase("agg-sig-special-point/alone", []crypto.Signature{N})
+			aggCase("agg-sig-special-point/with-negative", []crypto.Signature{P, N})
+			aggCase("agg-sig-special-point/repeated", []crypto.Signature{P, P, P})
+			aggCase("agg-sig-special-point/among-honest", []crypto.Signature{honest[0], P, honest[1]})
+			aggCase("agg-sig-special-point/last", []crypto.Signature{honest[0], honest[1], N})
+			if k+3 < len(special) {
+				aggCase("agg-sig-special-point/two", []crypto.Signature{P, crypto.Signature(special[k+2])})
+			}
+		}
+	}
 	genAggLengths(c)
 	// pairs of curve points (no subgroup check in aggregation, by design) whose abscissas differ by a value with a
 	// structured MONTGOMERY form (x * 2^384 mod p): the intermediate Z of the first addition is that difference, and a
